@@ -85,7 +85,18 @@ func main() {
 	histCfg := flag.String("hist", "", "debug: run one history; JSON HistCfg")
 	events := flag.String("events", "", "debug: comma separated events for -hist")
 	metaSteps := flag.String("meta", "", "debug: run one metadata script (comma separated steps)")
+	caseKind := flag.String("case", "", "debug: run one case of this kind")
+	caseSpec := flag.String("spec", "", "debug: JSON spec for -case")
 	flag.Parse()
+	if *caseKind != "" {
+		o := runCase(*caseKind, json.RawMessage(*caseSpec))
+		fmt.Println("obs:", o.Obs)
+		for _, v := range o.Viol {
+			fmt.Printf("VIOL %s\n   %s\n", v.Sig, v.Detail)
+		}
+		os.RemoveAll(nsqd.VerifBase)
+		return
+	}
 	if *metaSteps != "" {
 		spec := nsqd.MetaSpec{Steps: strings.Split(*metaSteps, ",")}
 		body := func() vx.Out { return nsqd.RunMetaScript(spec) }
